@@ -205,6 +205,21 @@ func apFlag(c *Case, tx *Txn) int {
 	return 0
 }
 
+// panicClass names a panic by the first sop frame of its stack.
+func panicClass(stack string) string {
+	for _, line := range strings.Split(stack, "\n") {
+		if i := strings.Index(line, "github.com/sharedcode/sop/"); i == 0 {
+			fn := strings.TrimPrefix(line, "github.com/sharedcode/sop/")
+			if j := strings.LastIndex(fn, "("); j > 0 {
+				fn = fn[:j]
+			}
+			fn = strings.ReplaceAll(fn, "[...]", "")
+			return "panic/" + strings.TrimRight(fn, ".")
+		}
+	}
+	return "panic"
+}
+
 func errClass(e string) string {
 	// structural class of an error text: drop ids, paths and numbers
 	e = strings.ToLower(e)
@@ -234,7 +249,7 @@ func oracleC01(c *Case, res *Result) []Violation {
 	var vs []Violation
 	for _, t := range res.Txns {
 		if t.Outcome == "panic" {
-			vs = append(vs, Violation{Class: "panic", Msg: t.Name + " panicked: " + t.Panic})
+			vs = append(vs, Violation{Class: panicClass(t.Panic), Msg: t.Name + " panicked: " + t.Panic})
 		}
 	}
 	if len(vs) > 0 {
